@@ -640,6 +640,9 @@ impl Memfs {
         &self, guard: &mut MemfsGuard, link: T, target: U,
     ) -> RvResult<PathBuf> {
         let link = self._abs(guard, link)?;
+        if guard.contains_entry(&link) {
+            return Err(PathError::exists_already(link).into());
+        }
         let target = target.as_ref().to_owned();
 
         // Convert relative links to absolute to ensure they are clean
